@@ -4,6 +4,7 @@ package main
 // ingress.ServicesFilter, node / involved-object / selector-match filters.
 
 import (
+	"go/token"
 	"fmt"
 	"strings"
 
@@ -26,6 +27,65 @@ var podsFilterSiblings = []podsFilterKind{
 }
 
 // srcOf: term is a field path rooted at the loop element index(M, i); returns the element term and the path below it.
+// comparatorIndexesSortedSlice: every element the less-closure cl looks at is an element of the
+// very slice handed to the sort.Slice call that uses cl (not of the unsorted original).
+func comparatorIndexesSortedSlice(cl *ssa.Function) bool {
+	par := cl.Parent()
+	if par == nil {
+		return false
+	}
+	var mk *ssa.MakeClosure
+	var sorted ssa.Value
+	for _, sf := range closuresOf(par) {
+		if sf.Fn != cl {
+			continue
+		}
+		mk = sf.Mk
+		for _, r := range *mk.Referrers() {
+			if call, ok := r.(*ssa.Call); ok && len(call.Call.Args) == 2 {
+				if g := call.Call.StaticCallee(); g != nil && strings.HasSuffix(fnName(g), "sort.Slice") {
+					sorted = stripIface(call.Call.Args[0])
+				}
+			}
+		}
+	}
+	if mk == nil || sorted == nil {
+		return false
+	}
+	// identity of a slice variable: the cell it lives in, or the value itself
+	ident := func(v ssa.Value) ssa.Value {
+		if u, ok := v.(*ssa.UnOp); ok && u.Op == token.MUL {
+			return u.X
+		}
+		return v
+	}
+	want := ident(sorted)
+	sf := &subFunc{Fn: cl, Mk: mk}
+	n := 0
+	for _, b := range cl.Blocks {
+		for _, in := range b.Instrs {
+			var base ssa.Value
+			switch x := in.(type) {
+			case *ssa.IndexAddr:
+				base = x.X
+			case *ssa.Index:
+				base = x.X
+			default:
+				continue
+			}
+			n++
+			o := sf.outer(base)
+			if o == nil {
+				return false
+			}
+			if o != want && ident(o) != want && storedValue(o) != want && storedValue(o) != storedValue(want) {
+				return false
+			}
+		}
+	}
+	return n > 0
+}
+
 func elemPath(t *Term) (*Term, string) {
 	path := ""
 	for t != nil {
@@ -70,6 +130,41 @@ func nsOfElem(t *Term) *Term {
 	return nil
 }
 
+// emptyInputYieldsEmptyOr: on this path the variadic source list is known to be empty, nothing is
+// done, and the result is filter.Or() of nothing — what the loop over no sources returns too.
+func emptyInputYieldsEmptyOr(pa *Path, param *ssa.Parameter) bool {
+	lenT := &Term{K: "len", A: []*Term{{K: "param", S: param.Name(), V: param}}}
+	zero := &Term{K: "const", S: "0"}
+	if relBetween(pa, lenT, zero) != relEQ {
+		return false
+	}
+	if pa.End.Kind != "return" || len(pa.End.Results) != 1 {
+		return false
+	}
+	r := pa.End.Results[0]
+	for r.K == "makeiface" || r.K == "convert" {
+		r = r.A[0]
+	}
+	if r.K != "call" || !strings.HasSuffix(r.S, "filter:Or") {
+		return false
+	}
+	for _, a := range r.A {
+		if !(a.K == "varargs" && len(a.A) == 0) && !a.IsNil() {
+			return false
+		}
+	}
+	for _, e := range pa.Effects {
+		if e.IsPure() || e.Kind == "call" && e.Res == pa.End.Results[0] {
+			continue
+		}
+		if e.Kind == "call" && strings.HasSuffix(e.Res.S, "filter:Or") {
+			continue
+		}
+		return false
+	}
+	return true
+}
+
 func checkPodsFilters(c *Ctx, orderOnly bool) {
 	rule := "T-SHAPE(PodsFilter)"
 	for _, k := range podsFilterSiblings {
@@ -85,6 +180,10 @@ func checkPodsFilters(c *Ctx, orderOnly bool) {
 		sortedOK, sortDetail := true, ""
 		var base *Term
 		for _, pa := range ps {
+			if emptyInputYieldsEmptyOr(pa, fn.Params[0]) {
+				// fast path for no sources: exactly what the general path yields for them
+				continue
+			}
 			var copied, sorted *Term
 			order := 0
 			for i, e := range pa.Effects {
@@ -108,7 +207,7 @@ func checkPodsFilters(c *Ctx, orderOnly bool) {
 		}
 		c.check(sortedOK, rule, name+"/sorted-copy-of-sources", pos, "copy then sort.Slice", name+": "+sortDetail)
 		// comparator
-		if cl := c.P.Func(k.rel, "PodsFilter$1"); cl != nil {
+		if cl := closureArgOf(fn, "sort.Slice"); cl != nil {
 			c.useFn(cl)
 			cps := pathsOf(c, cl)
 			ok := len(cps) == 2 && len(cl.Params) == 2
@@ -143,7 +242,10 @@ func checkPodsFilters(c *Ctx, orderOnly bool) {
 					ok = false
 				}
 			}
-			c.check(ok, rule, name+"/comparator-(namespace,name)", c.P.fnPos(cl), "", name+": the sort comparator is not the total order (namespace, then name) on the sources")
+			if ok && !comparatorIndexesSortedSlice(cl) {
+				ok = false
+			}
+			c.check(ok, rule, name+"/comparator-(namespace,name)", c.P.fnPos(cl), "", name+": the sort comparator is not the total order (namespace, then name) on the elements of the slice being sorted")
 		} else {
 			c.fail(rule, name+"/comparator-(namespace,name)", pos, "no sort comparator closure found")
 		}
@@ -605,7 +707,7 @@ func checkKindFilters(c *Ctx) {
 		c.check(ok, rule, "types/pod:nodeFilter.Accept/pod-on-listed-node", c.P.fnPos(fn), "", "nodeFilter.Accept is not (obj is a *Pod) && set contains pod.Spec.NodeName")
 	}
 	if fn := c.mustFunc("types/pod", "NodeFilter"); fn != nil {
-		lp := findLoops(fn)
+		lp := findLoopsDeep(c.P, fn)
 		ok := len(lp) == 1
 		if ok {
 			for _, pa := range (&Walker{P: c.P}).LoopRegion(fn, lp[0]) {
@@ -730,7 +832,7 @@ func checkKindFilters(c *Ctx) {
 	}
 	// serviceForFilter.Accept
 	if fn := c.mustFunc("types/service", "serviceForFilter.Accept"); fn != nil {
-		lp := findLoops(fn)
+		lp := findLoopsDeep(c.P, fn)
 		ok, detail := len(lp) == 1, ""
 		if ok {
 			pre := (&Walker{P: c.P}).PreludeRegion(fn, lp[0])
@@ -793,6 +895,8 @@ func checkKindFilters(c *Ctx) {
 					if res != "true" {
 						ok, detail = false, "all selector entries matched but result is "+res
 					}
+				case !presentK:
+					ok, detail = false, "a selector entry is compared without checking that the target has the key (a missing key would match an empty value)"
 				case presentK && !present, eqK && !eq:
 					if res != "false" {
 						ok, detail = false, "a missing/different selector entry does not reject"
